@@ -1,5 +1,6 @@
 import Driver.Common
 import JaqVerif.C07.Read
+import JaqVerif.Lemmas.C07Ryu
 
 namespace Jaq.Driver.C07
 open Jaq.C07
@@ -46,6 +47,12 @@ def handlers : List (String × Handler) := [
           | some v => "V " ++ showVal v
           | none => "E"
         else showRead (parseMany i)
+    | _ => "bad-request"),
+  -- round 2: the guard of `ryu_model_digits_roundtrip_partial` (the digit search of `ryuModel`
+  -- succeeds within 18 digits), evaluated for a float
+  ("c07.ryufound", fun toks => withVals 1 toks fun vs =>
+    match vs with
+    | [.num (.float f)] => if ryuFound (F64.abs f) then "1" else "0"
     | _ => "bad-request")
 ]
 
